@@ -27,7 +27,7 @@
 (***************************************************************************)
 EXTENDS World, TLC, Json, IOUtils
 
-Rec == ndJsonDeserialize(IOEnv.TRACE)
+Rec == TLCEval(ndJsonDeserialize(IOEnv.TRACE))
 
 VARIABLES
   l,      \* next event
@@ -110,12 +110,17 @@ IsBP(o) == o.k = "panic" /\ o.why = "borrow"
 NoB(c)  == [c EXCEPT !.b = ""]
 GStruct(g) == [g |-> g.g, ty |-> g.ty, dy |-> g.dy, kind |-> g.kind]
 
-\* observed state against the projection of a spec state
-ObsB(obs, cs)  == Len(obs.cells) = Len(cs) /\ \A k \in DOMAIN cs : obs.cells[k].b = cs[k].b
-ObsM(obs, cs)  == Len(obs.cells) = Len(cs) /\ \A k \in DOMAIN cs : NoB(obs.cells[k]) = NoB(cs[k])
-ObsGS(obs, gs) == Len(obs.guards) = Len(gs) /\ \A k \in DOMAIN gs : GStruct(obs.guards[k]) = GStruct(gs[k])
-ObsGV(obs, gs) == Len(obs.guards) = Len(gs) => \A k \in DOMAIN gs :
-                     obs.guards[k].payload = gs[k].payload /\ obs.guards[k].ident = gs[k].ident
+\* observed state against the projection of a spec state.  Every comparison is ONE
+\* equality of two values built in one pass (TLC re-evaluates operator arguments
+\* at every use, so element-wise comparisons of projections are quadratic).
+ObsBSeq(obs)  == [k \in DOMAIN obs.cells |-> obs.cells[k].b]
+SpecBSeq(br)  == [k \in 1 .. NIds |-> Class(br[IdAt(k)])]
+ObsMSeq(obs)  == [k \in DOMAIN obs.cells |-> NoB(obs.cells[k])]
+SpecMSeq(st)  == [k \in 1 .. NIds |-> NoB(ProjCell(st, [id \in Ids |-> Free], IdAt(k)))]
+ObsGSet(obs)  == {GStruct(obs.guards[k]) : k \in DOMAIN obs.guards}
+SpecGSet(gd)  == {[g |-> g, ty |-> gd[g].ty, dy |-> gd[g].dy, kind |-> gd[g].kind] : g \in DOMAIN gd}
+ObsVSet(obs)  == {[g |-> obs.guards[k].g, payload |-> obs.guards[k].payload, ident |-> obs.guards[k].ident] : k \in DOMAIN obs.guards}
+SpecVSet(st, gd) == {[g |-> g, payload |-> st[<<gd[g].ty, gd[g].dy>>].payload, ident |-> st[<<gd[g].ty, gd[g].dy>>].ident] : g \in DOMAIN gd}
 \* the property predicate of C09 evaluated on the observation itself
 ObsTyped(obs)  == \A k \in DOMAIN obs.cells : obs.cells[k].here => obs.cells[k].tid = obs.cells[k].ty
 
@@ -131,14 +136,19 @@ TrCall ==
        /\ LET e == Ev
               outOK == outcome' = e.out
               c08side == IsBP(outcome') \/ IsBP(e.out) \/ e.op \in GuardOps
-              f == [c08out   |-> outOK \/ ~c08side,
-                    c09out   |-> outOK \/ c08side,
-                    c08obs   |-> ObsB(e.obs, Cells') /\ ObsGS(e.obs, GuardObs'),
-                    c09obs   |-> ObsM(e.obs, Cells') /\ ObsGV(e.obs, GuardObs') /\ ObsTyped(e.obs),
-                    c09drops |-> e.obs.drops = Drops',
-                    c08lin |-> TRUE, c08can |-> TRUE, tool |-> TRUE]
-          IN /\ ok' = [k \in DOMAIN ok |-> ok[k] /\ f[k]]
-             /\ dead' = ~(\A k \in DOMAIN f : f[k])
+              a1 == outOK \/ ~c08side
+              a2 == outOK \/ c08side
+              a3 == /\ ObsBSeq(e.obs) = SpecBSeq(borrow')
+                    /\ ObsGSet(e.obs) = SpecGSet(guards') /\ Len(e.obs.guards) = Cardinality(DOMAIN guards')
+              a4 == /\ ObsMSeq(e.obs) = SpecMSeq(store')
+                    /\ (ObsGSet(e.obs) = SpecGSet(guards') => ObsVSet(e.obs) = SpecVSet(store', guards'))
+                    /\ ObsTyped(e.obs)
+              a5 == /\ Len(e.obs.drops) = nextIdent' - 1
+                    /\ {i \in DOMAIN e.obs.drops : e.obs.drops[i] # 0} = dropped' \cup returned'
+                    /\ \A i \in DOMAIN e.obs.drops : e.obs.drops[i] \in {0, 1}
+          IN /\ ok' = [ok EXCEPT !.c08out = @ /\ a1, !.c09out = @ /\ a2, !.c08obs = @ /\ a3,
+                                 !.c09obs = @ /\ a4, !.c09drops = @ /\ a5]
+             /\ dead' = ~(ok'.c08out /\ ok'.c09out /\ ok'.c08obs /\ ok'.c09obs /\ ok'.c09drops)
 
 \* ---- multi-threaded phase --------------------------------------------------------
 NoPend == <<>>
@@ -220,11 +230,11 @@ TrSync ==
   /\ IF dead THEN UNCHANGED <<borrow, dead, ok>>
      ELSE IF ~par \/ \E c \in confs : c.pend # NoPend
      THEN dead' = TRUE /\ ok' = [ok EXCEPT !.tool = FALSE] /\ UNCHANGED borrow
-     ELSE LET good == {c \in confs : ObsB(Ev.obs, CellsOf(store, c.br))}
-              gsok == ObsGS(Ev.obs, GuardObs)
-          IN /\ ok' = [ok EXCEPT !.c08obs = @ /\ good # {} /\ gsok,
-                                 !.c09obs = @ /\ ObsM(Ev.obs, Cells) /\ ObsGV(Ev.obs, GuardObs)]
-             /\ dead' = (good = {} \/ ~gsok \/ ~ObsM(Ev.obs, Cells))
+     ELSE LET good == {c \in confs : ObsBSeq(Ev.obs) = SpecBSeq(c.br)}
+              gsok == ObsGSet(Ev.obs) = SpecGSet(guards) /\ Len(Ev.obs.guards) = Cardinality(DOMAIN guards)
+              mok  == ObsMSeq(Ev.obs) = SpecMSeq(store) /\ (gsok => ObsVSet(Ev.obs) = SpecVSet(store, guards))
+          IN /\ ok' = [ok EXCEPT !.c08obs = @ /\ good # {} /\ gsok, !.c09obs = @ /\ mok]
+             /\ dead' = (good = {} \/ ~gsok \/ ~mok)
              /\ borrow' = IF good = {} THEN borrow ELSE (CHOOSE c \in good : TRUE).br
 
 Known == {"reset", "call", "par", "tcall", "tret", "canary", "sync"}
